@@ -38,8 +38,9 @@ class Use:    # `NAME[(args)]
 
 
 class Cond:   # `ifdef/`ifndef chain
-    def __init__(self, neg, branches, els=None, end_sep='\n'):
-        self.neg, self.branches, self.els, self.end_sep = neg, branches, els, end_sep
+    def __init__(self, neg, branches, els=None, end_sep='\n', compact=False):
+        # compact: the whole chain on one line, directives separated from their neighbours by single blanks only
+        self.neg, self.branches, self.els, self.end_sep, self.compact = neg, branches, els, end_sep, compact
 
 
 class Inc:    # `include "f" | <f> | `MACRO
@@ -142,10 +143,11 @@ def render(items, r=None):
             it.line = r.line
             for i, (name, body) in enumerate(it.branches):
                 kw = ('`ifndef ' if it.neg else '`ifdef ') if i == 0 else '`elsif '
-                r.emit(kw + name + '\n')
+                nl = ' ' if getattr(it, 'compact', False) else '\n'
+                r.emit(kw + name + nl)
                 render(body, r)
             if it.els is not None:
-                r.emit('`else\n')
+                r.emit('`else' + (' ' if getattr(it, 'compact', False) else '\n'))
                 render(it.els, r)
             it.end_line = r.line
             r.emit('`endif' + it.end_sep)
@@ -164,10 +166,11 @@ class RefError(Exception):
 
 class Tok:
     """expected output token with provenance"""
-    __slots__ = ('text', 'prov')
+    __slots__ = ('text', 'prov', 'glue')
 
     def __init__(self, text, prov):
         self.text = text
+        self.glue = False  # emulation of finding F11 only: no white space between this token and the next
         self.prov = prov   # ('src', file, off) | ('macro', file|None, body_off|None) | ('synth',) | ('kept', file, off)
 
     def __repr__(self):
@@ -250,7 +253,9 @@ def split_ws(s):
 def ref_eval(st, items, file, files=None, strip=False, expander=None, ignore_include=False, include_paths=()):
     """evaluate items (active region) appending expected tokens to st.out"""
     prev_kind = None
+    prev_item = None
     for x in items:
+        before, prev_item = prev_item, x
         # IEEE 22.4: only white space or a comment may share the line of an `include
         if isinstance(x, (T, Use, Def, Undef, UndefAll, Kept, Cond, Inc)):
             if st.last_include_line is not None and st.last_include_line == (file, _line_of(x)):
@@ -323,7 +328,12 @@ def ref_eval(st, items, file, files=None, strip=False, expander=None, ignore_inc
             if taken is None and x.els is not None:
                 taken = x.els
             if taken is not None:
+                n0 = len(st.out)
                 ref_eval(st, taken, file, files, strip, expander, ignore_include, include_paths)
+                if 'cond_head_ws_dropped' in st.quirks and n0 > 0 and len(st.out) > n0 and isinstance(before, (T, Use)) and before.sep == '':
+                    # emulation of finding F14: the white space after `ifdef NAME / `elsif NAME / `else is never copied, so a token
+                    # that touches the directive is glued to the first token of the taken branch
+                    st.out[n0 - 1].glue = True
             st.last_item_line = (file, x.end_line)
         elif isinstance(x, Inc):
             if ignore_include:
@@ -449,7 +459,14 @@ def ref_include(st, x, file, strip, expander, include_paths):
         if _gt_limit(st, st.idp + 1):
             raise RefError('ExceedRecursiveLimit')
         st.rd, st.idp = 0, st.idp + 1
+        n_before = len(st.out)
         ref_eval(st, body, p, None, strip, expander, False, st.include_paths)
+        if 'macro_named_include_drops_trailing_ws' in st.quirks and x.style not in ('"', '<') and len(st.out) > n_before:
+            # emulation of finding F11: the white space that follows `include `MACRO is not copied, so the last token of a
+            # file that does not end in white space touches the next token of the including text
+            last = body[-1] if body else None
+            if last is not None and getattr(last, 'sep', None) == '' or (isinstance(last, Cond) and last.end_sep == ''):
+                st.out[-1].glue = True
     except RefError as e:
         raise RefError('Include', (e.variant, e.name))
     finally:
